@@ -237,9 +237,13 @@ def fit(est, X, y, spec, warm=False):
         X = np.asarray(X).astype(spec["xint"])
     X = forms.present(X, spec.get("xform", "C"))
     y = forms.present(y, spec.get("yform", "C"))
-    if y is None:
-        return est.fit(X, warm_start=warm) if warm else est.fit(X)
-    return est.fit(X, y, warm_start=warm) if warm else est.fit(X, y)
+    try:
+        if y is None:
+            return est.fit(X, warm_start=warm) if warm else est.fit(X)
+        return est.fit(X, y, warm_start=warm) if warm else est.fit(X, y)
+    finally:
+        if spec.get("clobber"):  # the caller re-uses its buffers: what the selector needs later it has kept for itself
+            forms.clobber(X, y)
 
 
 def require(cond, reason):
